@@ -334,7 +334,7 @@ theorem c19_inline_value_never_quoted_in_errors (dec : Decoder) (rest e : Bytes)
     (h : readFileOrBase64 dec (dataPrefix ++ rest) = .error e) :
     e = invalidDataURIText ∨ ∃ n, e = corruptInputText n := by
   have hd : (dataPrefix ++ rest).drop 5 = rest := by simp [dataPrefix]
-  simp only [readFileOrBase64, dataPrefix_isPrefixOf, if_true, hd, readData] at h
+  simp only [readFileOrBase64, isDataURI_dataPrefix, if_true, hd, readData] at h
   have hstep : ∀ v, decodeStep dec v = .error e → ∃ n, e = corruptInputText n := by
     intro v hv
     unfold decodeStep at hv
@@ -351,7 +351,7 @@ theorem c19_inline_value_never_quoted_in_errors (dec : Decoder) (rest e : Bytes)
 theorem c19_inline_value_not_a_file (dec : Decoder) (rest name : Bytes) :
     readFileOrBase64 dec (dataPrefix ++ rest) ≠ .file name := by
   have hd : (dataPrefix ++ rest).drop 5 = rest := by simp [dataPrefix]
-  simp only [readFileOrBase64, dataPrefix_isPrefixOf, if_true, hd, readData]
+  simp only [readFileOrBase64, isDataURI_dataPrefix, if_true, hd, readData]
   intro h
   have hstep : ∀ v, decodeStep dec v ≠ .file name := by
     intro v hv
@@ -371,7 +371,7 @@ theorem c19_inline_load_base64_form (dec : Decoder) (q : Bytes) :
     simp [cutByte, fmtBase64, cComma]
   have ht : trimSlashes (fmtBase64 ++ [cComma] ++ q) = fmtBase64 ++ [cComma] ++ q := by
     simp [trimSlashes, fmtBase64, List.isPrefixOf]
-  simp only [inlineRaw, if_true, readFileOrBase64, dataPrefix_isPrefixOf, hd, readData, ht, hc]
+  simp only [inlineRaw, if_true, readFileOrBase64, isDataURI_dataPrefix, hd, readData, ht, hc]
 
 /-- the error of a refused `data:base64,<q>` value depends on the offset the decoder reports and on
     nothing else: two payloads refused at the same offset give the same outcome -/
@@ -412,6 +412,123 @@ theorem c19_inline_parsed_variant_quotes_value (dec : Decoder) (rest : Bytes) (h
     readFileOrBase64Parsed dec (dataPrefix ++ rest) = .error (urlParseErrorText (dataPrefix ++ rest)) := by
   have : (dataPrefix ++ rest).any isCtl = true := by simp [List.any_append, h]
   simp [readFileOrBase64Parsed, dataPrefix_isPrefixOf, this]
+
+/-! ### the spelling of the scheme of an inline value (F54, repaired) -/
+
+/-- URI schemes are case-insensitive: a value whose scheme is spelled `DATA:`, `Data:`, `dAtA:` … (any
+    five bytes that lower-case to `data:`) is loaded exactly as its lower-case spelling is - same data,
+    same error, never a file name - and is printed as `data:xxxxx` by both redactors (`RedactBase64` of
+    the configuration dump, `redactDataURI` of the TLS diagnostics), for every decoder and every rest. -/
+theorem c19_data_uri_scheme_case_irrelevant (dec : Decoder) (sch rest : Bytes)
+    (h : sch.map Ascii.toLower = dataPrefix) :
+    readFileOrBase64 dec (sch ++ rest) = readFileOrBase64 dec (dataPrefix ++ rest) ∧
+    redactBase64 (sch ++ rest) = dataPrefix ++ placeholder ∧
+    redactDataURI (sch ++ rest) = dataPrefix ++ placeholder := by
+  have hl : sch.length = 5 := by
+    have := congrArg List.length h
+    simpa [dataPrefix] using this
+  have hd : (sch ++ rest).drop 5 = rest := by rw [← hl]; exact List.drop_left
+  have hd' : (dataPrefix ++ rest).drop 5 = rest := by simp [dataPrefix]
+  refine ⟨?_, ?_, ?_⟩
+  · simp only [readFileOrBase64, isDataURI_of_spelling sch rest h, isDataURI_dataPrefix, if_true, hd, hd']
+  · simp only [redactBase64, isDataURI_of_spelling sch rest h, if_true]
+  · simp only [redactDataURI, isDataURI_of_spelling sch rest h, if_true]
+
+/-- … so the error of a refused value never quotes it, whatever the spelling of its scheme -/
+theorem c19_data_uri_any_spelling_never_quoted_in_errors (dec : Decoder) (sch rest e : Bytes)
+    (hs : sch.map Ascii.toLower = dataPrefix) (h : readFileOrBase64 dec (sch ++ rest) = .error e) :
+    e = invalidDataURIText ∨ ∃ n, e = corruptInputText n := by
+  rw [(c19_data_uri_scheme_case_irrelevant dec sch rest hs).1] at h
+  exact c19_inline_value_never_quoted_in_errors dec rest e h
+
+/-- FULL-STRENGTH STATEMENT for the prefix test before the repair (`strings.HasPrefix(s, "data:")`): false -/
+def readFileOrBase64Exact (dec : Decoder) (name : Bytes) : Loaded :=
+  if dataPrefix.isPrefixOf name then readData dec (name.drop 5) else .file name
+
+def c19_data_uri_exact_prefix_statement : Prop :=
+  ∀ (dec : Decoder) (sch rest : Bytes), sch.map Ascii.toLower = dataPrefix →
+    readFileOrBase64Exact dec (sch ++ rest) = readFileOrBase64Exact dec (dataPrefix ++ rest)
+
+/-- witness (F54): `DATA:base64,QUJD` was taken for the NAME of a file - `os.ReadFile`'s error then
+    names it: `open DATA:base64,QUJD: no such file or directory` -/
+theorem c19_data_uri_exact_prefix_witness : ¬ c19_data_uri_exact_prefix_statement := by
+  intro h
+  have h' := h (fun v => .ok v) (ascii "DATA:") (ascii "base64,QUJD") (by decide +kernel)
+  revert h'
+  decide +kernel
+
+/-! ### request log: a record is a function of its module's mode and of its own exchange -/
+
+/-- The record a logger writes does not depend on what the builder it is handed was used for before:
+    for EVERY previous content (any exchange of any module, headers of a dumped 5xx included) the
+    record equals the one from a new builder - for the code (a new builder per call) and for any
+    recycling whose reset leaves nothing behind. -/
+theorem c19_log_line_depends_only_on_own_exchange (r : Recycling) (hr : ∀ b, r.reset b = Builder.zero)
+    (prev : Builder) (m : LogMode) (e : Exchange) :
+    emitted r prev m e = logRecord m e := by
+  simp only [emitted, logRecord, hr]
+
+/-- the code is such a recycling -/
+theorem c19_log_line_own_exchange_code (prev : Builder) (m : LogMode) (e : Exchange) :
+    emitted noRecycling prev m e = logRecord m e :=
+  c19_log_line_depends_only_on_own_exchange noRecycling (fun _ => rfl) prev m e
+
+/-- the same over a whole history: whatever exchanges the loggers of the modules handled before and in
+    whatever order, every record of the history is the record of its own (mode, exchange) -/
+theorem c19_log_history_records_independent (r : Recycling) (hr : ∀ b, r.reset b = Builder.zero)
+    (st : Builder) (hist : List (LogMode × Exchange)) :
+    runLog r st hist = hist.map fun me => logRecord me.1 me.2 := by
+  induction hist generalizing st with
+  | nil => rfl
+  | cons me rest ih =>
+    obtain ⟨m, e⟩ := me
+    simp only [runLog, List.map_cons, c19_log_line_depends_only_on_own_exchange r hr, ih]
+
+/-- what the modes the property names may carry: `none` and `errors` below 500 write nothing;
+    `short-url` and `url` write a record WITHOUT header fields and bodies, whatever happened before;
+    (`errors` from 500 on, `headers` and `body` dump the exchange's own header fields by design) -/
+theorem c19_log_line_safe_modes_carry_no_headers (r : Recycling) (hr : ∀ b, r.reset b = Builder.zero)
+    (prev : Builder) (m : LogMode) (e : Exchange) :
+    (m = .none ∨ (m = .errors ∧ e.status < 500) → emitted r prev m e = none) ∧
+    (m = .shortURL ∨ m = .url → ∃ b, emitted r prev m e = some b ∧
+      b.reqHeaders = [] ∧ b.resHeaders = [] ∧ b.reqBody = [] ∧ b.resBody = []) := by
+  rw [c19_log_line_depends_only_on_own_exchange r hr]
+  constructor
+  · rintro (h | ⟨h, hs⟩)
+    · subst h; rfl
+    · subst h; simp [logRecord, fill, hs]
+  · rintro (h | h) <;> subst h <;>
+      exact ⟨_, rfl, rfl, rfl, rfl, rfl⟩
+
+/-- FULL-STRENGTH STATEMENT for a pool whose reset clears only the bodies: false -/
+def c19_log_line_body_only_reset_statement : Prop :=
+  ∀ (prev : Builder) (m : LogMode) (e : Exchange), emitted bodyOnlyReset prev m e = logRecord m e
+
+/-- a proxied exchange answered 503, dumped by right by a module in `errors` mode -/
+def exDumped : Exchange :=
+  ⟨ascii "GET", ascii "http://site.test/a", ascii "http://site.test/a?x=1", 503,
+   ascii "[Authorization=Basic dTpzM2NyM3Q=]", ascii "[Retry-After=1]", [], [], ascii "1ms", ascii "1-1"⟩
+/-- a later successful exchange of the API module -/
+def exLater : Exchange :=
+  ⟨ascii "GET", ascii "/version", ascii "/version", 200, ascii "[Authorization=Basic YTpi]", [], [], [], ascii "1ms", ascii "2-2"⟩
+
+/-- witness: the history [errors: 503 with a site's credentials; short-url: a later 200 of another
+    module] - the second record carries the first exchange's `Authorization` header -/
+theorem c19_log_line_body_only_reset_witness : ¬ c19_log_line_body_only_reset_statement := by
+  intro h
+  have h1 : ∀ (prev : Builder) (m : LogMode) (e : Exchange), emitted bodyOnlyReset prev m e = logRecord m e := h
+  have hrun : runLog bodyOnlyReset Builder.zero [(.errors, exDumped), (.shortURL, exLater)] =
+      [logRecord .errors exDumped, logRecord .shortURL exLater] := by
+    simp only [runLog, h1]
+  revert hrun
+  decide +kernel
+
+/-- the variant in general: a `short-url` / `url` record shows the header fields of whatever exchange
+    the builder was used for before -/
+theorem c19_log_line_body_only_reset_shows_previous_headers (prev : Builder) (e : Exchange) :
+    ∃ b, emitted bodyOnlyReset prev .shortURL e = some b ∧ b.reqHeaders = prev.reqHeaders ∧
+      b.resHeaders = prev.resHeaders :=
+  ⟨_, rfl, rfl, rfl⟩
 
 /-! ### the flag table extracted from the sources -/
 
@@ -508,7 +625,7 @@ example : caCertErrorText (FilePub.data.raw (ascii "QUJD")) = caCertErrorText (F
 example : caCertErrorText (ascii "/etc/ssl/ca.pem") = ascii "load CAs: append certificate \"/etc/ssl/ca.pem\"" := by
   decide +kernel
 example : (FilePub.path (ascii "/etc/ssl/ca.pem")).ok := by
-  show dataPrefix.isPrefixOf (ascii "/etc/ssl/ca.pem") = false
+  show isDataURI (ascii "/etc/ssl/ca.pem") = false
   decide
 /-- the "loading TLS certificate" record (F31 repaired): of the example configuration, with a path for the
     certificate and an inline key; it is written, and it is the same for two secret assignments -/
@@ -592,6 +709,31 @@ example : isInfix (ascii "QUJD") (urlParseErrorText (ascii "data:base64,QUJD" ++
   decide +kernel
 example : corruptPrefix = ascii "illegal base64 data at input byte " := by decide +kernel
 example : stripBreaks (ascii "QUJD" ++ [13, 10] ++ ascii "REVG" ++ [10]) = ascii "QUJDREVG" := by decide +kernel
+
+/-- the spelling of the scheme: upper case, capitalised and mixed load and print like lower case;
+    a blank in front, `./` in front or another scheme make the value a file name -/
+example : readFileOrBase64 (fun v => .ok v) (ascii "DATA:base64,QUJD") = .data (ascii "QUJD") := by decide +kernel
+example : readFileOrBase64 (fun v => .ok v) (ascii "Data:QUJD") = .data (ascii "QUJD") := by decide +kernel
+example : describeValue .file (ascii "DATA:base64,QUJD") = some (ascii "data:xxxxx") := by decide +kernel
+example : redactDataURI (ascii "dAtA:QUJD") = ascii "data:xxxxx" := by decide +kernel
+example : (ascii "DATA:").map Ascii.toLower = dataPrefix ∧ (ascii "Data:").map Ascii.toLower = dataPrefix := by
+  decide +kernel
+example : readFileOrBase64 (fun v => .ok v) (ascii "./data:QUJD") = .file (ascii "./data:QUJD") ∧
+    readFileOrBase64 (fun v => .ok v) (ascii "dta:QUJD") = .file (ascii "dta:QUJD") ∧
+    redactBase64 (ascii "data;QUJD") = ascii "data;QUJD" := by decide +kernel
+example : readFileOrBase64Exact (fun v => .ok v) (ascii "DATA:base64,QUJD") = .file (ascii "DATA:base64,QUJD") := by
+  decide +kernel
+
+/-- request log: the records of a history under the code (the second one has no header field), and under
+    the pool that clears the bodies only (it has the first exchange's) -/
+example : runLog noRecycling Builder.zero [(.errors, exDumped), (.shortURL, exLater)] =
+    [some ⟨ascii "GET", ascii "http://site.test/a", 503, ascii "1ms", ascii "1-1",
+        ascii "[Authorization=Basic dTpzM2NyM3Q=]", ascii "[Retry-After=1]", [], []⟩,
+     some ⟨ascii "GET", ascii "/version", 200, ascii "1ms", ascii "2-2", [], [], [], []⟩] := by decide +kernel
+example : (runLog bodyOnlyReset Builder.zero [(.errors, exDumped), (.shortURL, exLater)]).map (·.map (·.reqHeaders)) =
+    [some (ascii "[Authorization=Basic dTpzM2NyM3Q=]"), some (ascii "[Authorization=Basic dTpzM2NyM3Q=]")] := by
+  decide +kernel
+example : logRecord .errors exLater = none ∧ logRecord .none exDumped = none := by decide +kernel
 
 end C19
 end FwdVerif
